@@ -1,4 +1,4 @@
-import Tahoe.Uri.LemmasDir
+import Tahoe.Uri.LemmasE2E
 /-! C16 — capabilities attenuate correctly (`uri.py` get_readonly / get_verify_cap / is_readonly /
 is_mutable, `from_string` alleged prefixes, `unknown.py`, `nodemaker.py` create_from_cap).
 
@@ -15,7 +15,7 @@ so a derived cap can depend on a stronger secret only through the hash the code 
 | "A cap marked as alleged read-only or alleged immutable is never interpreted as writeable or mutable." — by `uri.from_string` | `alleged_prefix_respected`, `parsed_authority_bounded` (all byte strings, both contexts). |
 | — by `NodeMaker.create_from_cap`, whatever was created before (seed C16-a) | `node_respects_context`, `cache_is_memoryless` (all histories, incl. weak-reference drops). |
 | — by `UnknownNode` (both slots; seed C16-c) | `unknown_prefix_kept` (errored nodes opaque; stored ro_uri always prefixed, `imm.` never weakened; rw_uri kept only when given as such with a read cap outside deep-immutable). |
-| — along the route set_uri → `_pack_normalized_children` (cleartext ro slot) → `_unpack_contents` → create_from_cap(None, stored) (seed C16-c) | `ro_slot_never_writes`: the reader's node has at most read authority for every (writecap, readcap, context) and every hash functions, EXCEPT `roSlotException`; `ro_slot_exception_is_real` / `ro_slot_unprefixed_writecap_counterexample` prove the exception is inhabited (open known finding `ro-slot-unprefixed-writecap-in-unknownnode`). What is modelled of pack/unpack is the ro-slot string only; netstring framing, rw-slot encryption, metadata and the `rstrip(b" ")` on read are **not covered** here (C19/C18); the in-process grid run of the harness is **monitor only**. |
+| — along the route set_uri → `_pack_normalized_children` (cleartext ro slot) → `_unpack_contents` → create_from_cap(None, stored) (seed C16-c) | `ro_slot_never_writes`: the reader's node has at most read authority for every (writecap, readcap, context) and every hash functions, EXCEPT `roSlotException`; `ro_slot_exception_is_real` / `ro_slot_unprefixed_writecap_counterexample` prove the exception is inhabited (open known finding `ro-slot-unprefixed-writecap-in-unknownnode`). `ro_slot_end_to_end` composes the linker's side with the reader's `_unpack_contents` entry handling (`unpackChild`: `rstrip(b" ")`, raise_error, immutable-directory filter) for a directory of the matching context. Netstring framing, the encrypted rw slot and the metadata of an entry are **not covered** here (C19/C18 own the directory serialisation); the in-process grid run of the harness is **monitor only**. |
 | quantifier "all prefix combinations ro./imm. with deep-immutable and read-only contexts" | theorems are for all byte strings (so all prefix stackings) and both values of `deep`; "read-only context" = the ro slot / readcap argument, covered by the ro-slot route above. |
 | deep immutability is transitive through immutable directories of BOTH flavours, DIR2-CHK and DIR2-LIT (seed C16-d) | `immutable_dir_children`: every child entry read out of such a directory is refused, or is read-only & immutable with at most read authority, an unknown child is `imm.`-alleged without rw_uri, a directory child is again of an immutable flavour, non-empty rwcapdata is a ValueError. The child context is `dirChildDeep`, a function of the directory cap's kind. Netstring framing / metadata of the listing: not covered (C19). |
 | verify-cap of a directory *verifier* cap | outside the statement; `dir_verifier_reverify_is_miskinded` records what the code does. |
@@ -213,6 +213,24 @@ theorem ro_slot_exception_is_real :
     packRo H (some [120, 58, 121]) (some w) false = .stored w ∧ (readerNode w false).authority = .write ∧
     roSlotException (some [120, 58, 121]) (some w) false := by
   refine ⟨by decide, by decide, rfl, ⟨_, rfl⟩, _, rfl, by decide, by decide, by decide⟩
+
+/-- The same end to end through a directory: the string that set_uri + pack stored in the cleartext ro slot, read
+back by `_unpack_contents` (with its `rstrip(b" ")`, `raise_error` and immutable-directory filter) of a directory
+whose child context matches, never gives the reader a node with more than read authority — except in the one
+open exception. For every pair of strings, every hash functions, both contexts. -/
+theorem ro_slot_end_to_end (H : Hashes) (w r : Option Bytes) (deep : Bool) (stored : Bytes)
+    (h : packRo H w r deep = .stored stored) (dk : FileKind) (hdk : dirChildDeep dk = deep) (rwcap : Bool) (n : Node)
+    (hu : unpackChild dk stored rwcap = .child n) :
+    n.authority ≤ .read ∨ roSlotException w r deep :=
+  ro_slot_e2e H w r deep stored h dk hdk rwcap n hu
+
+/-- instance: an MDMF write cap linked into a mutable directory comes back to a read-cap holder as a read-only mutable file -/
+example : let H : Hashes := ⟨fun _ => List.replicate 16 0, id, id⟩
+    let m := filePrefix .mdmf ++ List.replicate 26 97 ++ [58] ++ List.replicate 52 97
+    let mro := filePrefix .mdmfRo ++ List.replicate 26 97 ++ [58] ++ List.replicate 52 97
+    packRo H (some m) none false = .stored mro ∧
+    unpackChild .sskRo mro true = .child (.known .mutableFile (.file (.mdmfRo (List.replicate 16 0) (List.replicate 32 0)))) := by
+  decide
 
 /-! ### deep immutability is transitive through both immutable directory flavours -/
 
